@@ -134,8 +134,8 @@ REO_Plain = re.compile(r'^[^ "]+$')
 
 #regex object determine if lat or lon is in human readable form
 #REO_LATLONPOS = re.compile(r'^([0-9]+)[N,E,n,e]([0-9]+\.[0-9]+)$')
-REO_LatLonNE = re.compile(r'^(\d+)[N,E,n,e](\d+\.\d+)$')
-REO_LatLonSW = re.compile(r'^(\d+)[S,W,s,w](\d+\.\d+)$')
+REO_LatLonNE = re.compile(r'^(\d+)[NEne](\d+\.\d+)$')
+REO_LatLonSW = re.compile(r'^(\d+)[SWsw](\d+\.\d+)$')
 #Usage
 # ll = REO_LatLonNE.findall(s) #returns list of tuples of groups [(deg,min)]
 # if ll:
@@ -152,11 +152,11 @@ Pned = namedtuple('Pned', 'n e d')  # World mapping North East Down right hand o
 Pfs = namedtuple('Pfs', 'f s')  # Body Forward Starboard
 Pfsb = namedtuple('Pfsb', 'f s b')  # Body Forward Starboard Below right hand order
 
-REO_PointXY = re.compile(r'^([-+]?\d+\.\d*|[-+]?\d+)?[X,x]([-+]?\d+\.\d*|[-+]?\d+)[Y,y]$')
-REO_PointXYZ = re.compile(r'^([-+]?\d+\.\d*|[-+]?\d+)[X,x]([-+]?\d+\.\d*|[-+]?\d+)[Y,y]([-+]?\d+\.\d*|[-+]?\d+)[Z,z]$')
+REO_PointXY = re.compile(r'^([-+]?\d+\.\d*|[-+]?\d+)?[Xx]([-+]?\d+\.\d*|[-+]?\d+)[Yy]$')
+REO_PointXYZ = re.compile(r'^([-+]?\d+\.\d*|[-+]?\d+)[Xx]([-+]?\d+\.\d*|[-+]?\d+)[Yy]([-+]?\d+\.\d*|[-+]?\d+)[Zz]$')
 
-REO_PointNE = re.compile(r'^([-+]?\d+\.\d*|[-+]?\d+)[N,n]([-+]?\d+\.\d*|[-+]?\d+)[E,e]$')
-REO_PointNED = re.compile(r'^([-+]?\d+\.\d*|[-+]?\d+)[N,n]([-+]?\d+\.\d*|[-+]?\d+)[E,e]([-+]?\d+\.\d*|[-+]?\d+)[D,d]$')
+REO_PointNE = re.compile(r'^([-+]?\d+\.\d*|[-+]?\d+)[Nn]([-+]?\d+\.\d*|[-+]?\d+)[Ee]$')
+REO_PointNED = re.compile(r'^([-+]?\d+\.\d*|[-+]?\d+)[Nn]([-+]?\d+\.\d*|[-+]?\d+)[Ee]([-+]?\d+\.\d*|[-+]?\d+)[Dd]$')
 
-REO_PointFS = re.compile(r'^([-+]?\d+\.\d*|[-+]?\d+)[F,f]([-+]?\d+\.\d*|[-+]?\d+)[S,s]$')
-REO_PointFSB = re.compile(r'^([-+]?\d+\.\d*|[-+]?\d+)[F,f]([-+]?\d+\.\d*|[-+]?\d+)[S,s]([-+]?\d+\.\d*|[-+]?\d+)[B,b]$')
+REO_PointFS = re.compile(r'^([-+]?\d+\.\d*|[-+]?\d+)[Ff]([-+]?\d+\.\d*|[-+]?\d+)[Ss]$')
+REO_PointFSB = re.compile(r'^([-+]?\d+\.\d*|[-+]?\d+)[Ff]([-+]?\d+\.\d*|[-+]?\d+)[Ss]([-+]?\d+\.\d*|[-+]?\d+)[Bb]$')
